@@ -13,7 +13,7 @@ MCStep ==
   /\ mm' = MM!MStep(mm, ev'.p, ev'.a, ev'.loc, ev'.ok, O(ev'.site).o, O(ev'.site).f, O(ev'.site).fences, ev'.post)
 
 MCNext ==
-  \/ MCStep /\ hist' = hist
+  \/ MCStep /\ hist' = Append(hist, ev')
 
   \/ Quiescent /\ UNCHANGED vars /\ UNCHANGED hist
 
@@ -22,4 +22,18 @@ MCSpec == MCInit /\ [][MCNext]_<<vars, hist>>
 NoRace == MM!NoRace(mm)
 NoStuck == (~ENABLED MCStep) => Quiescent
 View == <<scen, cb, cnt, kcb, pc, ki, wcount, coro, resumes, err, mm>>
+
+\* behaviour extraction: the schedule of every maximal behaviour (used with the _paths config, no VIEW)
+RECURSIVE OutsStr(_)
+OutsStr(i) == IF i > N THEN "" ELSE scen.outs[i] \o OutsStr(i + 1)
+\* the root drops the coroutine's future at the end: a frame that was never resumed is destroyed there
+RootTail == IF coro = "dropped" THEN <<[p |-> "root", obs |-> <<Ob("local_dtor", "")>>]>> ELSE <<>>
+PrintPaths ==
+  Quiescent =>
+     PrintT(<<"BEHAVIOUR", ToJson([scen |-> [form |-> scen.form, n |-> ToString(N), outs |-> OutsStr(1), exec |-> scen.exec],
+                                   final |-> ExpectedFinal,
+                                   evs |-> [i \in 1..Len(hist) |->
+                                             [p |-> hist[i].p, a |-> hist[i].a, o |-> hist[i].o, old |-> hist[i].old,
+                                              new |-> hist[i].new, ok |-> hist[i].ok, spur |-> hist[i].spur, obs |-> hist[i].obs,
+                                              done |-> hist[i].done]] \o RootTail])>>)
 =============================================================================
